@@ -187,6 +187,7 @@ type wfix struct {
 	base   int // goroutine baseline with no case connection open
 	notes  []string
 	ncases int
+	leaky  bool
 }
 
 func newWfix() (*wfix, error) {
@@ -869,7 +870,11 @@ func (f *wfix) runCase(c WCase) (map[string]string, string, error) {
 	}
 	pc.Abort()
 	// the server's goroutines go away
-	deadline := time.Now().Add(60 * time.Second)
+	wait := 60 * time.Second
+	if f.leaky {
+		wait = 200 * time.Millisecond // a leak has been reported by this worker already: do not wait a minute per case
+	}
+	deadline := time.Now().Add(wait)
 	n := runtime.NumGoroutine()
 	for i := 0; n > f.base && time.Now().Before(deadline); i++ {
 		if i < 2000 {
@@ -882,6 +887,7 @@ func (f *wfix) runCase(c WCase) (map[string]string, string, error) {
 	if n > f.base {
 		s.add("LEAK", "goroutines:"+c.Kind, fmt.Sprintf("%d goroutines 60 s after the connection was closed, baseline %d; input %s in state %s", n, f.base, Show(input), state))
 		f.base = n // do not report the same leak for every following case
+		f.leaky = true
 	} else if n < f.base {
 		f.base = n
 	}
